@@ -284,7 +284,7 @@ fn handle_candidates(
         candidates.keys().collect::<Vec<_>>()
     );
 
-    for (_, pks) in candidates {
+    for (_table, pks) in candidates {
         let pks = pks
             .iter()
             .map(|(pk, cl)| unpack_columns(pk).map(|x| (x, *cl)))
@@ -295,6 +295,15 @@ fn handle_candidates(
             if cl % 2 == 0 {
                 change_type = ChangeType::Delete
             }
+            #[cfg(feature = "verif-hooks")]
+            crate::verif::event("upd.notify", || {
+                format!(
+                    "{} {cl} {change_type:?} {}",
+                    _table,
+                    serde_json::to_string(&pk.iter().map(|x| x.to_owned()).collect::<Vec<_>>())
+                        .unwrap_or_default()
+                )
+            });
             if let Err(e) = evt_tx.blocking_send(NotifyEvent::Notify(
                 change_type,
                 pk.iter().map(|x| x.to_owned()).collect::<Vec<_>>(),
